@@ -2,9 +2,22 @@
 
 Real code under contract (never re-implemented): ``comb_spec_searcher.rule_db.forest.ForestRuleExtractor``
 (constructor -> ``_sorted_stable_rules`` -> ``_minimize`` -> ``_minimize_key``, ``_is_productive``, ``check``,
-``needed_rules``) on top of the real ``TableMethod`` (``pumping_subuniverse``).  The extractor is built on a stub rule
-database exposing only ``.table_method`` (classdb/pack are ``None``: the parts exercised never touch them; turning keys
-back into pack rules is exercised by the toy-universe searches of C02, not here).
+``needed_rules``, ``rules`` -> ``_find_rule``) on top of the real ``TableMethod`` (``pumping_subuniverse``).
+
+Part 1, integer universes: the extractor is built on a stub rule database exposing only ``.table_method`` (classdb/pack
+are ``None``: the parts exercised never touch them).
+
+Part 2, universes recorded by real searches: a ``CombinatorialSpecificationSearcher`` runs with a real ``RuleDBForest``
+(``reverse=True`` and ``reverse=False``) under a deterministic clock; every key the database hands to its table method
+is recorded by a wrapper on ``TableMethod.add_rule_key`` and every rule it is given by a wrapper on ``RuleDBForest.add``.
+The rules are extracted twice (``get_specification_rules``): when the search first reports a specification, and again
+after the search has been continued until nothing is left to expand (a larger universe, another insertion history).
+Families: the word universe (all packs of harness.universe x its start classes), the packs CYCLE_PACKS over the
+letters a, b, c whose symmetry is the letter renaming a -> b -> c -> a (order three: the image of a class is not mapped
+back by the same strategy, so image -> class exists only as the reverse of a rule and, having one child, is an
+equivalence), alone / inverted / with its inverse / with the swap / with the "reverse" pack of the universe / with
+finite verification, and the plane-tree universe (TREE_PACKS: unions with empty children, products with repeated
+children).
 
 Oracle: the Kleene least-fixed-point computation of ``harness.c03.lfp_oracle`` (independent of the table method),
 ``Prod(R)`` := root has value infinity in lfp(R).
@@ -22,23 +35,47 @@ Contracts (deal) on sidecar wrappers:
     minimal        removing any single rule makes the root non-pumping
     reverse-last   if the universe without its REVERSE keys is productive, no REVERSE key is kept
     check()        the extractor's own self-check passes
+  (on real universes with more than STEP_CONTRACT_MAX_KEYS keys the two step contracts ``_is_productive`` /
+  ``_minimize_key`` are skipped for time; the statement above and ``pumping_subuniverse`` are always evaluated)
+* ``ForestRuleExtractor._find_rule(key)`` (real searches; last clause of the property): returns -- does not raise -- a
+                                            rule whose ``forest_key`` is exactly ``key``
+* ``ForestRuleExtractor.rules(cache)``      (real searches) every rule handed out has the key of an extracted key (an
+                                            EquivalenceRule: its original rule has), no two share a left-hand side, and
+                                            every extracted key has its rule handed out, except possibly the keys
+                                            without children of classes that are empty by brute force ("is empty");
+                                            "reverse-rule-only-when-needed": if the keys of the rules GIVEN to the
+                                            database (no reverses) are productive on their own, no rule handed out is a
+                                            reverse rule, whatever bucket its key is filed under (the reverse of a rule
+                                            with one non-empty child is filed as an equivalence)
 """
 import contextlib
 import itertools
 import multiprocessing
 import random
+import zlib
 from collections import Counter
 
 import deal
 
 import comb_spec_searcher.rule_db.forest as forest
+from comb_spec_searcher import CombinatorialSpecificationSearcher, StrategyPack
+from comb_spec_searcher.exception import (
+    ExceededMaxtimeError,
+    NoMoreClassesToExpandError,
+    SpecificationNotFound,
+)
+from comb_spec_searcher.strategies.rule import EquivalenceRule, ReverseRule
 from comb_spec_searcher.typing import ForestRuleKey, RuleBucket
+from harness import universe as U
 from harness.c03 import lfp_oracle
+from harness.c14 import any_class_from_repr, clock, truly_empty
 
 NPROC = 16
 COUNTS = Counter()
 _LAST = {}
 ROOT = 0
+STEP_CONTRACT_MAX_KEYS = 60
+MAX_LEVELS = 60
 NONVERIF = (RuleBucket.NORMAL, RuleBucket.EQUIV, RuleBucket.REVERSE)
 BNAME = {RuleBucket.NORMAL: "N", RuleBucket.EQUIV: "E", RuleBucket.REVERSE: "R", RuleBucket.VERIFICATION: "V"}
 BFROM = {v: k for k, v in BNAME.items()}
@@ -75,6 +112,8 @@ def _post_subuniverse(tb, result):
 
 
 def _post_is_productive(ext, keys, result):
+    if getattr(ext, "_h_light", False):
+        return True
     COUNTS["ForestRuleExtractor._is_productive"] += 1
     exp = prod(keys, ext.root_label)
     if bool(result) != exp:
@@ -83,6 +122,8 @@ def _post_is_productive(ext, keys, result):
 
 
 def _post_minimize_key(ext, key):
+    if getattr(ext, "_h_light", False):
+        return True
     COUNTS["ForestRuleExtractor._minimize_key"] += 1
     before_needed, before_bucket = ext._h_pre
     if ext.rule_by_bucket[key]:
@@ -127,12 +168,84 @@ def _post_init(ext, ruledb):
         COUNTS["cases-with-reverse-keys"] += 1
         if any(k.bucket == RuleBucket.REVERSE for k in ext.needed_rules):
             COUNTS["cases-keeping-a-reverse-key"] += 1
+    real = hasattr(ruledb, "_h_rules")
+    if real:
+        COUNTS["real:ForestRuleExtractor.__init__"] += 1
+        if any(k.bucket == RuleBucket.REVERSE for k in ext.needed_rules):
+            COUNTS["real:extractions-keeping-a-REVERSE-key"] += 1
+        _LAST["extraction"] = (len(inserted), len(ext.needed_rules))
+        if any(k not in _given_keys(ruledb) for k in ext.needed_rules):
+            COUNTS["real:extractions-keeping-a-key-of-no-rule-given-to-the-database"] += 1
+    shown = f"{len(inserted)} recorded keys" if real and len(inserted) > 12 else _short(inserted)
     if err:
-        return _note(err[0], f"universe {_short(inserted)}: {err[1]}")
+        return _note(err[0], f"universe {shown}: {err[1]}")
     try:
         ext.check()
     except AssertionError:
-        return _note("check()", f"universe {_short(inserted)}: extractor.check() fails on {_short(ext.needed_rules)}")
+        return _note("check()", f"universe {shown}: extractor.check() fails on {_short(ext.needed_rules)}")
+    return True
+
+
+def _labels(ext):
+    return ext.classdb.get_label, ext.classdb.is_empty
+
+
+def _given_keys(ruledb):
+    """The keys of the rules the database was given (computed by the rules' own forest_key), i.e. not of reverses."""
+    return {r.forest_key(ruledb.classdb.get_label, ruledb.classdb.is_empty) for r in ruledb._h_rules}
+
+
+def _is_reverse(rule):
+    return isinstance(rule, ReverseRule) or (
+        isinstance(rule, EquivalenceRule) and isinstance(rule.original_rule, ReverseRule))
+
+
+def _post_find_rule(ext, rule_key, outcome):
+    COUNTS["ForestRuleExtractor._find_rule"] += 1
+    kind, value = outcome
+    if kind == "raised":
+        return _note("extracted-key-back-to-rule", f"_find_rule({_short([rule_key])}) raised {type(value).__name__}: "
+                     f"{str(value)[:160]!r}; parent {ext.classdb.get_class(rule_key.parent)!r}")
+    got = value.forest_key(*_labels(ext))
+    if got != rule_key:
+        return _note("extracted-key-back-to-rule", f"_find_rule({_short([rule_key])}) returned a rule with key {_short([got])}")
+    if rule_key.bucket == RuleBucket.REVERSE:
+        COUNTS["real:REVERSE-key-turned-back-into-a-rule"] += 1
+    elif isinstance(value, ReverseRule):
+        COUNTS["real:reverse-equivalence-key-turned-back-into-a-rule"] += 1
+    return True
+
+
+def _post_rules(ext, rules):
+    COUNTS["ForestRuleExtractor.rules"] += 1
+    needed = set(ext.needed_rules)
+    lhs = []
+    for rule in rules:
+        key = rule.forest_key(*_labels(ext))
+        if key not in needed and isinstance(rule, EquivalenceRule):
+            key = rule.original_rule.forest_key(*_labels(ext))
+        if key not in needed:
+            return _note("rules-have-the-extracted-keys", f"rule with key {_short([key])} handed out, extracted "
+                         f"{_short(ext.needed_rules)}")
+        lhs.append(key.parent)
+    if len(set(lhs)) != len(lhs):
+        return _note("rules-have-the-extracted-keys", f"two rules handed out for one class: parents {sorted(lhs)}")
+    # the rule "this class is empty" (no children, class empty by brute force) may be left out; nothing else
+    owed = sorted(k.parent for k in ext.needed_rules
+                  if k.children or not truly_empty(ext.classdb.get_class(k.parent)))
+    if set(owed) - set(lhs):
+        return _note("rules-have-the-extracted-keys", f"rules handed out for the classes {sorted(lhs)}, but keys were "
+                     f"extracted for {owed} (not counting empty classes)")
+    ruledb = getattr(ext, "_h_ruledb", None)
+    reverses = [r for r in rules if _is_reverse(r)]
+    if ruledb is not None and reverses:
+        COUNTS["real:rule-sets-handed-out-with-a-reverse-rule"] += 1
+        given = _given_keys(ruledb)
+        if prod([k for k in ruledb.table_method._h_inserted if k in given], ext.root_label):
+            keys = [r.forest_key(*_labels(ext)) for r in reverses]
+            return _note("reverse-rule-only-when-needed", f"{len(reverses)} reverse rule(s) handed out, with keys "
+                         f"{_short(keys)}, although the keys of the rules given to the database (no reverses) are "
+                         f"productive on their own; extracted {_short(ext.needed_rules)}")
     return True
 
 
@@ -168,14 +281,54 @@ def installed():
 
     @deal.ensure(lambda self, root_label, ruledb, classdb, pack, result: _post_init(self, ruledb))
     def __init__(self, root_label, ruledb, classdb, pack):
+        self._h_light = (hasattr(ruledb, "_h_rules")
+                         and len(ruledb.table_method._h_inserted) > STEP_CONTRACT_MAX_KEYS)
+        if hasattr(ruledb, "_h_rules"):
+            self._h_ruledb = ruledb
         return _real["init"](self, root_label, ruledb, classdb, pack)
 
+    # real searches: what the database is given, what it hands to its table method (observers, no contract)
+    D = forest.RuleDBForest
+    _real.update(add_rule_key=T.add_rule_key, db_add=D.add, find_rule=X._find_rule, rules=X.rules)
+
+    def add_rule_key(self, rule_key):
+        if hasattr(self, "_h_inserted"):
+            self._h_inserted.append(rule_key)
+        return _real["add_rule_key"](self, rule_key)
+
+    def db_add(self, start, ends, rule):
+        if hasattr(self, "_h_rules"):
+            self._h_rules.append(rule)
+        return _real["db_add"](self, start, ends, rule)
+
+    @deal.ensure(lambda self, rule_key, result: _post_find_rule(self, rule_key, result))
+    def _find_rule_outcome(self, rule_key):
+        try:
+            return "rule", _real["find_rule"](self, rule_key)
+        except Exception as e:  # pylint: disable=broad-except
+            return "raised", e
+
+    def _find_rule(self, rule_key):
+        return _find_rule_outcome(self, rule_key)[1]
+
+    @deal.ensure(lambda self, cache, result: _post_rules(self, result))
+    def _rules_list(self, cache):
+        return list(_real["rules"](self, cache))
+
+    def rules(self, cache):
+        if self.classdb is None:
+            return _real["rules"](self, cache)
+        return iter(_rules_list(self, cache))
+
     X.__init__, X._is_productive, X._minimize_key, T.pumping_subuniverse = __init__, _is_productive, _minimize_key, pumping_subuniverse
+    T.add_rule_key, D.add, X._find_rule, X.rules = add_rule_key, db_add, _find_rule, rules
     try:
         yield
     finally:
         X.__init__, X._is_productive, X._minimize_key = _real["init"], _real["is_productive"], _real["minimize_key"]
         T.pumping_subuniverse = _real["sub"]
+        T.add_rule_key, D.add, X._find_rule, X.rules = (_real["add_rule_key"], _real["db_add"], _real["find_rule"],
+                                                        _real["rules"])
 
 
 # --------------------------------------------------------------------------------------------------------------
@@ -206,6 +359,168 @@ def run_case(keys):
     except Exception as e:
         return {"check": "exception", "what": f"{type(e).__name__}: {e}", "witness": wit}, True
     return None, len(ext.needed_rules) < len(keys)
+
+
+# --------------------------------------------------------------------------------------------------------------
+# Part 2: universes recorded by real searches
+# --------------------------------------------------------------------------------------------------------------
+
+
+def _cycle_pack(name, symmetries, initial=None, expansion=None, ver=None):
+    return lambda: StrategyPack(
+        initial_strats=[U.RemoveFrontOfPrefix()] if initial is None else initial(),
+        inferral_strats=[],
+        expansion_strats=[[U.ExpansionStrategy()]] if expansion is None else expansion(),
+        ver_strats=[U.StatAtomStrategy()] if ver is None else ver(),
+        symmetries=symmetries(),
+        name=name,
+    )
+
+
+# the symmetry slot holds the generator of a group of order three (and variations); everything else as in the universe
+CYCLE_PACKS = {
+    "cycle": _cycle_pack("cycle", lambda: [U.CycleSymmetry()]),
+    "cycle-inverse": _cycle_pack("cycle-inverse", lambda: [U.CycleSymmetry(inverse=True)]),
+    "cycle-both": _cycle_pack("cycle-both", lambda: [U.CycleSymmetry(), U.CycleSymmetry(inverse=True)]),
+    "cycle-swap": _cycle_pack("cycle-swap", lambda: [U.CycleSymmetry(), U.SwapSymmetry()]),
+    "cycle-noinitial": _cycle_pack(
+        "cycle-noinitial", lambda: [U.CycleSymmetry()], initial=lambda: [],
+        expansion=lambda: [[U.RemoveFrontOfPrefix(), U.ExpansionStrategy()]]),
+    "cycle-reverse": _cycle_pack(
+        "cycle-reverse", lambda: [U.CycleSymmetry()],
+        expansion=lambda: [[U.ExpansionNotSingle()], [U.LookBackRuleFactory()]],
+        ver=lambda: [U.StatAtomStrategy(), U.RootVerified()]),
+    "cycle-finite": _cycle_pack(
+        "cycle-finite", lambda: [U.CycleSymmetry(inverse=True)],
+        ver=lambda: [U.StatAtomStrategy(), U.FiniteVerified()]),
+}
+
+_CYCLE_QUICK = [
+    ("", [], "abc"),
+    ("", ["aa", "bb", "cc"], "abc"),
+    ("", ["ab", "bc", "ca"], "abc"),
+    ("", ["abc", "bca", "cab"], "abc"),
+    ("", ["aa"], "abc"),
+    ("", ["ab"], "abc"),
+    ("", ["a"], "abc"),
+    ("", ["a", "bb"], "abc"),
+    ("", ["ac", "ba", "cb"], "abc"),
+    ("", ["aba", "bcb", "cac"], "abc"),
+    ("", ["aa", "bb"], "abc"),
+    ("", ["aaa", "bbb", "ccc"], "abc"),
+    ("a", ["aa", "bb", "cc"], "abc"),
+    ("b", ["ab", "bc", "ca"], "abc"),
+    ("c", ["abc", "bca", "cab"], "abc"),
+    ("a", [], "abc"),
+    ("b", ["cc"], "abc"),
+    ("ab", ["aa", "bb", "cc"], "abc"),
+    ("ca", ["ab", "bc", "ca"], "abc"),
+    ("", ["aa"], "ab"),
+    ("", ["bb", "cc"], "bc"),
+    ("", ["ca"], "ac"),
+    ("a", ["ab", "ba"], "ab"),
+    ("", ["aa"], "a"),
+    ("", [], "c"),
+]
+
+
+def cycle_start_classes(tier, seed):
+    """quick: a fixed list (alphabets abc, ab, bc, ac, a, c; <= 3 patterns of length <= 3; prefix length <= 2);
+    thorough: plus a seeded sample of 150 classes over abc with <= 3 patterns of length <= 3 and prefix length <= 2."""
+    res = [U.Av(p, patts, al) for p, patts, al in _CYCLE_QUICK]
+    if tier == "quick":
+        return res
+    rng = random.Random(seed + 77)
+    words = ["".join(w) for k in (1, 2, 3) for w in itertools.product("abc", repeat=k)]
+    prefixes = [""] + [w for w in words if len(w) <= 2]
+    seen = set(res)
+    while len(res) < len(_CYCLE_QUICK) + 150:
+        c = U.Av(rng.choice(prefixes), rng.sample(words, rng.randint(0, 3)), "abc")
+        if c not in seen:
+            seen.add(c)
+            res.append(c)
+    return res
+
+
+def make_real_pack(name):
+    for packs in (CYCLE_PACKS, U.TREE_PACKS, U.PACKS):
+        if name in packs:
+            return packs[name]()
+    raise KeyError(name)
+
+
+def real_cases(tier, seed):
+    """(pack, start, reverse, schedule), enumerated without repetition."""
+    cases = []
+    words = U.START_CLASSES(tier, seed)
+    for name in U.PACKS:
+        for start in words:
+            if U.pack_applicable(name, start):
+                cases.append((name, repr(start)))
+    for name in CYCLE_PACKS:
+        for start in cycle_start_classes(tier, seed):
+            cases.append((name, repr(start)))
+    for name in U.TREE_PACKS:
+        for start in U.TREE_STARTS(tier, seed):
+            cases.append((name, repr(start)))
+    variants = [(True, "eager"), (True, "coarse"), (False, "eager")]
+    if tier != "quick":
+        variants.append((False, "coarse"))
+    return [(n, s, rev, sched) for n, s in cases for rev, sched in variants]
+
+
+def run_real_case(case):
+    """One real search with a RuleDBForest; the contracts fire inside auto_search / get_specification_rules.
+    Returns (violation or None, info)."""
+    name, start_repr, reverse, schedule = case
+    _LAST.clear()
+    wit = {"pack": name, "start": start_repr, "reverse": reverse, "schedule": schedule}
+    info = {"case": list(case), "extractions": []}
+    moment = "the search reports a specification"
+    try:
+        start = any_class_from_repr(start_repr)
+        db = forest.RuleDBForest(reverse=reverse)
+        db.table_method._h_inserted = []
+        db._h_rules = []
+        css = CombinatorialSpecificationSearcher(start, make_real_pack(name), ruledb=db)
+        U.silence()
+        with clock(schedule, zlib.crc32(repr(case).encode())):
+            try:
+                css.auto_search(max_expansion_time=10**4)
+                info["extractions"].append(_LAST.pop("extraction", None))
+            except (SpecificationNotFound, ExceededMaxtimeError):
+                pass
+            moment = "the search has been continued until nothing is left to expand"
+            for _ in range(MAX_LEVELS):
+                try:
+                    css.do_level()
+                except NoMoreClassesToExpandError:
+                    break
+            if db.has_specification():
+                handed = list(db.get_specification_rules())
+                info["extractions"].append(_LAST.pop("extraction", None))
+                info["rules"] = len(handed)
+        info["keys"] = len(db.table_method._h_inserted)
+    except deal.ContractError:
+        return {"check": _LAST.get("check", "contract"), "witness": wit,
+                "what": f"when {moment}: " + _LAST.get("what", "contract failed")[:600]}, info
+    except Exception as e:  # pylint: disable=broad-except
+        return {"check": "exception", "witness": wit, "what": f"when {moment}: {type(e).__name__}: {str(e)[:300]}"}, info
+    return None, info
+
+
+def _real_worker(task):
+    _, cases, _seed = task
+    U.silence()
+    COUNTS.clear()
+    viols, infos = [], []
+    with installed():
+        for case in cases:
+            v, info = run_real_case(case)
+            if v is not None:
+                viols.append(v)
+            infos.append(info)
+    return {"viols": viols, "infos": infos, "counts": dict(COUNTS)}
 
 
 # --------------------------------------------------------------------------------------------------------------
@@ -270,7 +585,14 @@ def _worker(task):
             "samples": samples}
 
 
+def _dispatch(task):
+    return _real_worker(task) if task[0] == "real" else _worker(task)
+
+
 def run(tier, seed):
+    cases = real_cases(tier, seed)
+    nchunks = NPROC * (8 if tier == "quick" else 32)
+    real_tasks = [("real", cases[i::nchunks], seed) for i in range(nchunks)]
     if tier == "quick":
         tasks = [("rnd", 5, 8, 260, seed * 1000 + i) for i in range(64)]
         n_univ = 64 * 260
@@ -283,20 +605,37 @@ def run(tier, seed):
              + "; arity 0..3 with repeated children, shifts -2..3, arity-0 rules in bucket VERIFICATION), kept when the oracle "
              "says class 0 pumps; for each kept universe EVERY assignment of NORMAL/EQUIV/REVERSE to its non-verification "
              "rules when there are <=4 of them, otherwise 10 seeded assignments + all-REVERSE + all-NORMAL; one seeded "
-             "insertion order per case")
+             "insertion order per case.  REAL SEARCHES: "
+             f"{len(cases)} searches with a RuleDBForest = (the {len(U.PACKS)} packs of the word universe x "
+             f"{len(U.START_CLASSES(tier, seed))} start classes; {len(CYCLE_PACKS)} packs with the order-three letter "
+             f"renaming a->b->c->a as symmetry x {len(cycle_start_classes(tier, seed))} classes over subsets of abc, <= 3 "
+             f"patterns of length <= 3, prefix length <= 2; {len(U.TREE_PACKS)} plane-tree packs x "
+             f"{len(U.TREE_STARTS(tier, seed))} tree classes) x (reverse=True: 2 clock schedules, a specification is looked "
+             "for after every work packet / after the queue is drained; reverse=False: "
+             + ("the first schedule" if tier == "quick" else "both") + "); rules "
+             "extracted when the search first reports a specification and again after the search has run out of classes "
+             f"(<= {MAX_LEVELS} further levels); step contracts skipped on recorded universes of more than "
+             f"{STEP_CONTRACT_MAX_KEYS} keys")
     ctx = multiprocessing.get_context("fork")
     with ctx.Pool(NPROC) as pool:
-        results = pool.map(_worker, tasks, chunksize=1)
+        results = pool.map(_dispatch, tasks + real_tasks, chunksize=1)
     counts = Counter()
     viols, evals, nontriv, tried, samples = [], 0, 0, 0, []
+    real_infos = []
     for r in results:
         counts.update(r["counts"])
         viols.extend(r["viols"])
+        if "infos" in r:
+            real_infos.extend(r["infos"])
+            continue
         evals += r["evals"]
         nontriv += r["nontriv"]
         tried += r["tried"]
         samples.extend(r["samples"])
-    viols.sort(key=lambda v: (v["check"], len(v["witness"]["keys"]), str(v["witness"])))
+    real_infos.sort(key=lambda i: str(i["case"]))
+    real_nontriv = sum(1 for i in real_infos if any(e and e[1] < e[0] for e in i["extractions"]))
+    viols.sort(key=lambda v: (v["check"], "pack" in v["witness"], len(v["witness"].get("keys", ())),
+                              len(v["witness"].get("start", "")), str(v["witness"])))
     out, per = [], Counter()
     for v in viols:
         if per[v["check"]] < 3:
@@ -304,20 +643,31 @@ def run(tier, seed):
             out.append(v)
     return {
         "bound": bound,
-        "evaluations": evals,
-        "distinct_nontrivial": nontriv,
+        "evaluations": evals + len(real_infos),
+        "distinct_nontrivial": nontriv + real_nontriv,
         "universes_generated": tried,
+        "integer_universe_evaluations": evals,
+        "real_search_evaluations": len(real_infos),
+        "real_search_extractions": sum(len(i["extractions"]) for i in real_infos),
         "rule": ("evaluation = one extraction (real ForestRuleExtractor on a real TableMethod fed one ordered, bucketed "
                  "universe in which class 0 pumps); cases deduplicated per worker as ordered key tuples; non-trivial = the "
-                 "extractor had to discard at least one inserted key"),
+                 "extractor had to discard at least one inserted key.  Real searches: evaluation = one search (pack, "
+                 "start, reverse, schedule), enumerated without repetition, with up to two extractions; non-trivial = a "
+                 "specification was reported and an extraction discarded at least one recorded key"),
         "exhaustive": False,
         "contracts_evaluated": dict(counts),
-        "samples": samples[:3] + samples[-2:],
+        "samples": samples[:3] + samples[-2:] + [i for i in real_infos if i["extractions"]][:: max(1, len(real_infos) // 4)][:4],
         "violations": out[:20],
     }
 
 
 def replay(violation):
+    if "pack" in violation["witness"]:
+        w = violation["witness"]
+        COUNTS.clear()
+        with installed():
+            v, _ = run_real_case((w["pack"], w["start"], w["reverse"], w["schedule"]))
+        return v is not None and v["check"] == violation["check"]
     keys = [ForestRuleKey(p, tuple(ch), tuple(sh), BFROM[b]) for p, ch, sh, b in violation["witness"]["keys"]]
     COUNTS.clear()
     with installed():
